@@ -23,26 +23,23 @@ Definition rok (cap : N) (x : mout) : Prop :=
 
 Definition pcok (cap : N) (p : pc) : Prop :=
   match p with
-  | K8 _ n len take i acc => len = N.min n cap /\ take <= len /\ i < take /\ N.of_nat (length acc) = i
-  | K9 _ n len acc => len = N.min n cap /\ N.of_nat (length acc) <= len
-  | K10 d => dok cap d
+  | K8 _ n len take i acc _ => len = N.min n cap /\ take <= len /\ i < take /\ N.of_nat (length acc) = i
+  | K9 _ n len acc _ => len = N.min n cap /\ N.of_nat (length acc) <= len
+  | K10 d _ => dok cap d
   | _ => True
   end.
 
 Definition lok (cap : N) (l : local) : Prop := pcok cap (pcl l) /\ Forall (rok cap) (results l).
-Definition sok (cap : N) (s : shared) : Prop := capacity (prim s) = cap /\ capacity (sec s) = cap.
+Definition sok (cap : N) (s : shared) : Prop := capacity (res (sp s)) = cap /\ capacity (res (ss s)) = cap.
 
 Lemma enter_ok cap m td rs : Forall (rok cap) rs -> lok cap (enter m td rs).
 Proof. intros H. destruct td as [|[v c|k|] r]; cbn; split; cbn; auto. Qed.
 
-Lemma side_cap cap s sd : sok cap s -> capacity (side s sd) = cap.
+Lemma side_cap cap s sd : sok cap s -> capacity (res (side s sd)) = cap.
 Proof. intros [A B]. destruct sd; assumption. Qed.
 
-Lemma set_side_ok cap s sd r : sok cap s -> capacity r = cap -> sok cap (set_side s sd r).
+Lemma set_side_ok cap s sd x : sok cap s -> capacity (res x) = cap -> sok cap (set_side s sd x).
 Proof. intros [A B] C. destruct sd; split; cbn; assumption. Qed.
-
-Lemma add_infl_ok cap s sd up : sok cap s -> sok cap (add_infl s sd up).
-Proof. intros [A B]. split; cbn; assumption. Qed.
 
 Lemma store_capacity r i v : capacity (store r i v) = capacity r.
 Proof. unfold capacity, store. cbn. rewrite set_nth_length. reflexivity. Qed.
@@ -53,23 +50,24 @@ Proof.
   intros Hs [Hp Hr] E. unfold step in E. destruct l as [m p td rs]. cbn [pcl me todo results] in *.
   destruct p; cbn [pcok] in Hp.
   - inversion E; subst s' l'. split; [exact Hs|apply enter_ok; exact Hr].
-  - inversion E; subst s' l'. split; [apply add_infl_ok; exact Hs|split; cbn; auto].
+  - inversion E; subst s' l'. split; [|split; cbn; auto].
+    apply set_side_ok; [exact Hs|]. cbn. apply (side_cap cap s (usep s) Hs).
   - inversion E; subst s' l'. split; [|split; cbn; auto].
     apply set_side_ok; [exact Hs|]. unfold capacity. cbn. apply (side_cap cap s sd Hs).
   - unfold store_step in E. pose proof (side_cap cap s sd Hs) as C.
-    destruct (idx <? capacity (side s sd)).
+    destruct (idx <? capacity (res (side s sd))).
     + inversion E; subst s' l'. split.
-      * apply add_infl_ok, set_side_ok; [exact Hs|]. rewrite store_capacity. exact C.
+      * apply set_side_ok; [exact Hs|]. cbn [res]. rewrite store_capacity. exact C.
       * apply enter_ok. constructor; [cbn; auto|exact Hr].
-    + destruct (c mod (idx + 1) <? capacity (side s sd)); inversion E; subst s' l'; (split;
-        [apply add_infl_ok, set_side_ok; [exact Hs|rewrite ?store_capacity; exact C]
+    + destruct (c mod (idx + 1) <? capacity (res (side s sd))); inversion E; subst s' l'; (split;
+        [apply set_side_ok; [exact Hs|cbn [res]; rewrite ?store_capacity; exact C]
         |apply enter_ok; constructor; [cbn; auto|exact Hr]]).
   - destruct (lock s); inversion E; subst s' l'; (split; [exact Hs|split; cbn; auto]).
   - inversion E; subst s' l'. split; [exact Hs|split; cbn; auto].
   - inversion E; subst s' l'. split; [exact Hs|split; cbn; auto].
   - inversion E; subst s' l'. split; [exact Hs|]. split; [|exact Hr]. cbn [goto pcl].
     rewrite (side_cap cap s up Hs).
-    set (n := count (side s up)).
+    set (n := count (res (side s up))).
     assert (Hlen : (if cap <? n then cap else n) = N.min n cap).
     { destruct (cap <? n) eqn:Q; [apply N.ltb_lt in Q|apply N.ltb_ge in Q]; lia. }
     rewrite Hlen.
@@ -101,7 +99,7 @@ Qed.
 Lemma Inv_init cap ps : Inv (N.of_nat cap) (init_config cap ps).
 Proof.
   split; cbn [fst snd init_config].
-  - unfold sok, init_shared, capacity, with_capacity. cbn. rewrite repeat_length. split; reflexivity.
+  - unfold sok, init_shared, side0, capacity, with_capacity. cbn. rewrite repeat_length. split; reflexivity.
   - generalize 0 as m. induction ps as [|p r IH]; intros m; cbn [init_locals]; constructor; [|apply IH].
     split; cbn; auto.
 Qed.
